@@ -279,7 +279,8 @@ where
     ) -> Result<(), DI::Error> {
         let rows = M::FRAMEBUFFER_SIZE.1;
 
-        let vscrdef = if top_fixed_area + bottom_fixed_area > rows {
+        let fixed_rows = u32::from(top_fixed_area) + u32::from(bottom_fixed_area);
+        let vscrdef = if fixed_rows > u32::from(rows) {
             dcs::SetScrollArea::new(rows, 0, 0)
         } else {
             dcs::SetScrollArea::new(
